@@ -35,7 +35,7 @@ var expectedMiss = map[string]string{}
 var prefixMap = map[string][]string{
 	"599fc63": {"C04", "C05"}, "3f2511a": {"C05", "C06"}, "ea5225b": {"C05", "C06"}, "2b7fe47": {"C05"},
 	"fd9ac05": {"C09"}, "10ac675": {"C14"}, "5dbcba8": {"C15"}, "50c29f4": {"C20"}, "0167c2c": {"C17"}, "e25cddd": {"C17"}, "c42d982": {"C08"},
-	"748ff89": {"C10", "C11", "C12"}, "9611b99": {"C04"}, "09512e3": {"C02", "C16", "C17"}, "873eeb8": {"C03", "C19"}, "65ff69a": {"C06"},
+	"748ff89": {"C10", "C11", "C12"}, "9611b99": {"C04"}, "09512e3": {"C02", "C16", "C17"}, "873eeb8": {"C03", "C19"}, "65ff69a": {"C06"}, "d2f3f31": {"C10", "C11", "C12"}, "739e400": {"C14"},
 }
 
 func thoroughExtras(p *Prog, c *Check) {
